@@ -334,19 +334,21 @@ func body(r *simrt.Run, tier string) {
 	failMode := t.Intn(3)
 	connectFails := t.Chance(1, 4)
 
+	plan := &txFaults{}
+	db.plans[0] = plan
 	switch tp.txf {
 	case txfBegin:
 		if connectFails {
-			db.failConnect = true
+			plan.failConnect = true
 		} else {
-			db.failBegin = true
+			plan.failBegin = true
 		}
 	case txfCommit:
-		db.failCommit = true
+		plan.failCommit = true
 	case txfRollback:
-		db.failRollback = true
+		plan.failRollback = true
 	case txfCommitRollback:
-		db.failCommit, db.failRollback = true, true
+		plan.failCommit, plan.failRollback = true, true
 	}
 	if tp.end == endStmtFail || tp.end == endStmtIgnored {
 		k := tp.pos
@@ -378,7 +380,7 @@ func body(r *simrt.Run, tier string) {
 			ks = append(ks, fmt.Sprintf("%s(ctx=%v)", kindNames[w.kinds[k]], w.useCtx[k]))
 		}
 		r.Logf("plan api=%s tuple=%s statements=%v errKind=%d panicKind=%d wrap=%v failMode=%d connectFails=%v",
-			apiNames[tp.api], tp.name(), ks, w.errKind, w.panicKind, w.wrap, failMode, db.failConnect)
+			apiNames[tp.api], tp.name(), ks, w.errKind, w.panicKind, w.wrap, failMode, plan.failConnect)
 	}
 
 	// ---- the one transaction of this run
@@ -413,7 +415,7 @@ func body(r *simrt.Run, tier string) {
 		r.Ev(e.op, int64(e.tag), flag)
 	}
 	if r.Tracing() {
-		r.Logf("driver log: %s", db.logString())
+		r.Logf("driver log: %s", logString(db.snapshot()))
 		r.Logf("body runs=%d outcome=%s bodyErr=%v; Transact returned %v (escaped panic: %v)", w.bodyRuns, w.outcome, w.bodyErr, ret, escaped)
 	}
 	w.check(log, ret, didEscape, escaped, sqlDB.Stats().InUse)
@@ -428,18 +430,17 @@ func body(r *simrt.Run, tier string) {
 		r.Probe("tuple-" + tp.name())
 	}
 	for _, what := range []string{"begin", "connect", "commit", "rollback"} {
-		if db.fired(what) > 0 {
+		if db.fired(0, what) > 0 {
 			r.Probe("fault-fired-" + what)
 		}
 	}
 	if tp.end == endStmtFail || tp.end == endStmtIgnored {
-		k := tp.pos
 		switch {
-		case db.fired(fmt.Sprintf("stmt-%d", k)) > 0:
+		case db.fired(0, "stmt") > 0:
 			r.Probe("fault-fired-statement")
-		case db.fired(fmt.Sprintf("prepare-%d", k)) > 0:
+		case db.fired(0, "prepare") > 0:
 			r.Probe("fault-fired-prepare")
-		case db.fired(fmt.Sprintf("empty-%d", k)) > 0:
+		case db.fired(0, "empty") > 0:
 			r.Probe("fault-fired-empty-result")
 		}
 	}
@@ -453,7 +454,7 @@ func body(r *simrt.Run, tier string) {
 	if ret != nil {
 		retStr = ret.Error()
 	}
-	r.Sample(map[string]any{"api": apiNames[tp.api], "tuple": tp.name(), "statements": tp.n, "driver_log": db.logString(),
+	r.Sample(map[string]any{"api": apiNames[tp.api], "tuple": tp.name(), "statements": tp.n, "driver_log": logString(db.snapshot()),
 		"body_outcome": w.outcome, "returned": retStr})
 }
 
@@ -488,7 +489,7 @@ func (w *world) check(log []dbEvent, ret error, didEscape bool, escaped any, inU
 	}
 	trail := func() string {
 		return fmt.Sprintf("[api %s, tuple %s] driver log: %s; body runs=%d outcome=%s; returned error: %v",
-			apiNames[w.tp.api], w.tp.name(), w.db.logString(), w.bodyRuns, w.outcome, ret)
+			apiNames[w.tp.api], w.tp.name(), logString(w.db.snapshot()), w.bodyRuns, w.outcome, ret)
 	}
 
 	// "begins one transaction"
